@@ -35,7 +35,7 @@ RULE = (
 ASSUMPTIONS = [
     "mixture_logistic is not generated here: its initialisation assigns individuals to initial clusters by position (order-dependent by design) and its per-cluster term shapes differ; the locality of its individual sampler decisions is judged by C03.",
     "Replacing the other individuals keeps their ages and missingness pattern (tensor shapes unchanged), so bit-identity is decidable; draws are position-indexed (same seed -> same draw for row i).",
-    "Totals vs sums of per-individual terms and alone-vs-batch comparisons use rtol 1e-5 (summation order); `others` relations are bit-exact (same positions); under a permutation per-individual terms are compared within 64 ulp (vectorised kernels round position-dependently) and scipy_minimize outputs within 1e-4 once the start-point draws are permuted with the individuals (the harness re-seeds torch per identifier just before each subject's start point is drawn); initial parameters within one 2^-16 rounding step.",
+    "Totals vs sums of per-individual terms and alone-vs-batch comparisons use rtol 1e-5 (summation order) plus, for attachment terms (sums of entries of both signs that may cancel to ~0), 1e-5 of the summed magnitudes n_obs*(|log sigma|+1); `others` relations are bit-exact (same positions); under a permutation per-individual terms are compared within 64 ulp (vectorised kernels round position-dependently) and scipy_minimize outputs within 1e-4 once the start-point draws are permuted with the individuals (the harness re-seeds torch per identifier just before each subject's start point is drawn); initial parameters within one 2^-16 rounding step.",
     "Personalised parameters are compared across a permutation only for scipy_minimize (deterministic, per-individual); chain-based algorithms are compared under `others` with positions fixed.",
 ]
 REQUIRED_CLASSES = {"others:personalize:one-other-individual-overflows": 10, "others": 150, "alone": 150, "permute": 150, "permute:non-identity": 100, "others:sampler-step": 100, "others:personalize": 60,
@@ -287,9 +287,16 @@ def body(col: Collector, case):
             mA.put_data_variables(s1, ds1)
             for k in ind_vars:
                 s1[k] = sA._values[k][i:i + 1].clone()
+        # an attachment term is a sum of entries 0.5 r^2/sigma^2 + log sigma + const that may cancel to ~0: the admitted
+        # summation-order error is relative to the summed magnitudes of the entries, not to the net value
+        mag = 0.0
+        if "y" in sA.dag and "noise_std" in sA.dag:
+            n_obs_i = float(sA["y"].weight[i].sum())
+            mag = n_obs_i * (float(tval(sA["noise_std"]).double().log().abs().max()) + 1.0)
         for t, vA in termsA.items():
             v1 = tval(s1[t])
-            if not torch.allclose(v1[0].double(), vA[i].double(), rtol=1e-5, atol=1e-6, equal_nan=True):
+            atol = 1e-6 + (1e-5 * (mag + float(vA[i].double().abs().sum())) if t.startswith("nll_attach") and bool(torch.isfinite(vA[i]).all()) else 0.0)
+            if not torch.allclose(v1[0].double(), vA[i].double(), rtol=1e-5, atol=atol, equal_nan=True):
                 raise Fail(f"alone:{t}-alone-differs-from-batch", v1[0].tolist(), vA[i].tolist())
         col.case(classes=["alone"], sample=None)
         # ---------------------------------------------------------------- permute (+ relabel)
@@ -325,7 +332,9 @@ def body(col: Collector, case):
         for tot, per in TOTALS:
             if tot in sA.dag:
                 a, b = tval(sA[tot]).double(), tval(sP[tot]).double()
-                if not torch.allclose(a, b, rtol=1e-5, atol=1e-6, equal_nan=True):
+                per_abs = tval(sA[per]).double().abs()
+                atol = 1e-6 * (float(per_abs[torch.isfinite(per_abs)].sum()) + 1)  # as in the totals relation: terms of both signs may cancel
+                if not torch.allclose(a, b, rtol=1e-5, atol=atol, equal_nan=True):
                     raise Fail(f"permute:{tot}-changes-with-order", float(b), float(a))
         if case["algo"] == "scipy_minimize":
             twin = loaded_twin(mA)
